@@ -1,4 +1,138 @@
-import CosetModel.Api
+/-
+  C01 — untrusted bytes never crash decoding or the processing that follows it.
+  Proved: no decoding entry point of any type panics (every panic site of the model — Vec::remove, indexing, unwrap/expect,
+  assert!, unreachable!, len-4 — is dominated by its guard); re-encoding never panics; the to-be-signed / MAC / AAD helpers never
+  panic on a decoded value under their documented preconditions; the recursion through counter signatures and protected
+  headers is bounded by the nesting budget whatever the input (fuel independence).  Machine stack bytes per activation,
+  allocator behaviour and wall-clock time are not modelled: they are observed by the child-process runs of the check.
+-/
+import CosetProofs.EncodeNoPanic
+import CosetProofs.Fuel
+import CosetProofs.Props.C02
 namespace Coset.Props.C01
+open Coset
+
+/-- every byte-level decoding entry point (`from_slice`) of every type: value or error, never a panic. -/
+theorem decode_no_panic (bs : Bytes) :
+    NP (fromSlice hdrFromValue bs) ∧ NP (fromSlice ProtectedHeader.fromValue bs) ∧ NP (fromSlice sigFromValue bs) ∧
+    NP (fromSlice CoseSign.fromValue bs) ∧ NP (fromSlice CoseSign1.fromValue bs) ∧ NP (fromSlice rcpFromValue bs) ∧
+    NP (fromSlice CoseEncrypt.fromValue bs) ∧ NP (fromSlice CoseEncrypt0.fromValue bs) ∧ NP (fromSlice CoseMac.fromValue bs) ∧
+    NP (fromSlice CoseMac0.fromValue bs) ∧ NP (fromSlice CoseKey.fromValue bs) ∧ NP (fromSlice CoseKeySet.fromValue bs) ∧
+    NP (fromSlice ClaimsSet.fromValue bs) ∧ NP (fromSlice PartyInfo.fromValue bs) ∧ NP (fromSlice SuppPubInfo.fromValue bs) ∧
+    NP (fromSlice CoseKdfContext.fromValue bs) ∧ NP (fromSlice Label.fromValue bs) := by
+  have hph : ∀ v, NP (ProtectedHeader.fromValue v) := by
+    intro v p h
+    unfold ProtectedHeader.fromValue at h
+    cases hh : hdrFromValue v with
+    | ok x => simp [hh] at h
+    | err e => simp [hh] at h
+    | panic q => exact hdrFromValue_NP v q hh
+  exact ⟨fromSlice_NP _ hdrFromValue_NP bs, fromSlice_NP _ hph bs, fromSlice_NP _ sigFromValue_NP bs, fromSlice_NP _ sign_NP bs,
+    fromSlice_NP _ sign1_NP bs, fromSlice_NP _ rcpFromValue_NP bs, fromSlice_NP _ encrypt_NP bs, fromSlice_NP _ encrypt0_NP bs,
+    fromSlice_NP _ mac_NP bs, fromSlice_NP _ mac0_NP bs, fromSlice_NP _ key_NP bs, fromSlice_NP _ keyset_NP bs, fromSlice_NP _ claims_NP bs,
+    fromSlice_NP _ party_NP bs, fromSlice_NP _ supp_NP bs, fromSlice_NP _ kdf_NP bs, fromSlice_NP _ Label_fromValue_NP bs⟩
+
+/-- the tagged entry points of the six message types. -/
+theorem decode_tagged_no_panic (bs : Bytes) :
+    NP (fromTaggedSlice Gen.TAG_CoseSign CoseSign.fromValue bs) ∧ NP (fromTaggedSlice Gen.TAG_CoseSign1 CoseSign1.fromValue bs) ∧
+    NP (fromTaggedSlice Gen.TAG_CoseEncrypt CoseEncrypt.fromValue bs) ∧ NP (fromTaggedSlice Gen.TAG_CoseEncrypt0 CoseEncrypt0.fromValue bs) ∧
+    NP (fromTaggedSlice Gen.TAG_CoseMac CoseMac.fromValue bs) ∧ NP (fromTaggedSlice Gen.TAG_CoseMac0 CoseMac0.fromValue bs) :=
+  ⟨fromTaggedSlice_NP _ _ sign_NP bs, fromTaggedSlice_NP _ _ sign1_NP bs, fromTaggedSlice_NP _ _ encrypt_NP bs,
+   fromTaggedSlice_NP _ _ encrypt0_NP bs, fromTaggedSlice_NP _ _ mac_NP bs, fromTaggedSlice_NP _ _ mac0_NP bs⟩
+
+/-- the bstr-wrapped protected header entry point. -/
+theorem protected_bstr_no_panic (v : Value) : NP (phFromBstr v) := phFromBstr_NP v
+
+/-- the CBOR parser itself: value, error or (model-only) out of fuel — it has no panic outcome at all. -/
+theorem parser_no_panic (bs : Bytes) : NP (readToValue bs) := readToValue_NP bs
+
+/-- re-encoding: `to_cbor_value` of headers, protected headers and signatures never panics, for any in-memory value. -/
+theorem encode_no_panic (h : Header) (s : CoseSignature) (p : ProtectedHeader) :
+    NP (Header.toValue h) ∧ NP (CoseSignature.toValue s) ∧ NP (ProtectedHeader.cborBstr p) :=
+  ⟨Header.toValue_NP h, CoseSignature.toValue_NP s, ProtectedHeader.cborBstr_NP p⟩
+
+/-- a decoded protected header always turns back into its byte string (stored bytes), so the structure functions' `expect` cannot fire. -/
+theorem decoded_protected_serialises (v : Value) (p : ProtectedHeader) (h : phFromBstr v = .ok p) :
+    ∃ d, ProtectedHeader.cborBstr p = .ok (.bytes d) := by
+  obtain ⟨d, _, ho⟩ := C02.decode_retains _ _ v p h
+  cases p with
+  | mk orig hd => simp only [ProtectedHeader.originalData] at ho; subst ho; exact ⟨d, cborBstr_stored d hd⟩
+
+/-- follow-up on a decoded COSE_Sign1: to-be-signed bytes and verification never panic, for every AAD and verifier. -/
+theorem sign1_followup_no_panic {ρ : Type} (v : Value) (m : CoseSign1) (hd : CoseSign1.fromValue v = .ok m) (aad : Bytes) (g : Bytes → Bytes → ρ) :
+    (∃ t, m.tbsData aad = .ok t) ∧ (∃ r, m.verifySignature aad g = .ok r) := by
+  obtain ⟨x0, x1, x2, _, h0, _, _⟩ := (sign1_ok_iff v m).mp hd
+  obtain ⟨d, hb⟩ := decoded_protected_serialises x0 _ h0
+  have := C03.sign1_tbs m aad d hb
+  exact ⟨⟨_, this⟩, ⟨_, C03.verify_passes m aad g _ this⟩⟩
+
+/-- follow-up on a decoded COSE_Mac0 / COSE_Encrypt0 with the payload / ciphertext present where the helper needs it. -/
+theorem mac0_followup_no_panic {ρ : Type} (v : Value) (m : CoseMac0) (hd : CoseMac0.fromValue v = .ok m) (aad pl : Bytes) (g : Bytes → Bytes → ρ)
+    (hp : m.payload = some pl) : ∃ r, m.verifyTag aad g = .ok r := by
+  obtain ⟨x0, x1, x2, _, h0, _, _⟩ := (mac0_ok_iff v m).mp hd
+  obtain ⟨d, hb⟩ := decoded_protected_serialises x0 _ h0
+  exact ⟨_, C04.verify_passes0 m aad g _ (C04.mac0_tbm m aad d pl hb hp)⟩
+
+theorem encrypt0_followup_no_panic {ρ : Type} (v : Value) (m : CoseEncrypt0) (hd : CoseEncrypt0.fromValue v = .ok m) (aad ct : Bytes)
+    (g : Bytes → Bytes → ρ) (hc : m.ciphertext = some ct) : ∃ r, m.decrypt aad g = .ok r := by
+  obtain ⟨x0, x1, x2, _, h0, _, _⟩ := (encrypt0_ok_iff v m).mp hd
+  obtain ⟨d, hb⟩ := decoded_protected_serialises x0 _ h0
+  exact ⟨_, C05.encrypt0_decrypt m aad d ct g hb hc⟩
+
+/-- follow-up on a decoded COSE_Sign, for every in-range signer index. -/
+theorem sign_followup_no_panic {ρ : Type} (v : Value) (m : CoseSign) (hd : CoseSign.fromValue v = .ok m) (aad : Bytes) (which : Nat)
+    (hw : which < m.signatures.length) (g : Bytes → Bytes → ρ) : ∃ r, m.verifySignature which aad g = .ok r := by
+  obtain ⟨x0, x1, x2, sigs, _, h0, _, _, hs⟩ := (sign_ok_iff v m).mp hd
+  obtain ⟨d, hb⟩ := decoded_protected_serialises x0 _ h0
+  have hsig : m.signatures[which]? = some m.signatures[which] := List.getElem?_eq_getElem hw
+  obtain ⟨sd, hsd⟩ := C02.signers_retain sigs m.signatures hs m.signatures[which] (List.getElem_mem hw)
+  have hsb : ProtectedHeader.cborBstr m.signatures[which].protected_ = .ok (.bytes sd) := by
+    cases hq : m.signatures[which].protected_ with
+    | mk orig hh => rw [hq] at hsd; simp only [ProtectedHeader.originalData] at hsd; subst hsd; exact cborBstr_stored sd hh
+  exact ⟨_, C03.verify_passes_sign m which aad g _ _ hsig (C03.sign_tbs m _ aad d sd hb hsb)⟩
+
+/-- the nesting of counter signatures / protected headers is bounded by the crate's budget, whatever the input:
+    the decoders' results do not depend on the fuel once it exceeds 3·budget + 3 (no deeper activation is ever needed),
+    and beyond the budget the input is refused with a decode error instead of recursing. -/
+theorem depth_bounded (k : Nat) (v : Value) :
+    Header.fromValue (topFuel + k) maxNest v = hdrFromValue v ∧ CoseSignature.fromValue (topFuel + k) maxNest v = sigFromValue v ∧
+    ProtectedHeader.fromBstr (topFuel + k) maxNest v = phFromBstr v := by
+  obtain ⟨hH, hP, hS⟩ := fuel_independent maxNest
+  refine ⟨?_, ?_, ?_⟩
+  · unfold hdrFromValue; rw [hH _ v (by unfold topFuel; omega), hH topFuel v (by unfold topFuel; omega)]
+  · unfold sigFromValue; rw [hS _ v (by unfold topFuel; omega), hS topFuel v (by unfold topFuel; omega)]
+  · unfold phFromBstr; rw [hP _ v (by unfold topFuel; omega), hP topFuel v (by unfold topFuel; omega)]
+
+theorem budget : maxNest = 16 := by decide
+
+/-- with the budget exhausted a counter signature is refused (decode error), not followed. -/
+theorem budget_exhausted (sf : Value → Res CoseSignature) (a : List Value) (ha : a ≠ []) :
+    counterSigArm 0 sf (.array a) = .err .decodeFailed := by
+  cases a with
+  | nil => exact absurd rfl ha
+  | cons x xs => simp [counterSigArm, tryAsArray]
+
+/-- non-vacuity: 16 nested counter signatures through protected headers are accepted, 17 are refused; a decoded COSE_Sign with
+    two signers satisfies the follow-up preconditions. -/
+def nestW : Nat → Bytes
+  | 0 => [0xa0]
+  | n + 1 => [0xa1, 0x07, 0x83] ++ Cbor.encHead 2 (nestW n).length ++ nestW n ++ [0xa0, 0x40]
+example : (fromSlice hdrFromValue (nestW 16)).isOk = true ∧ (fromSlice hdrFromValue (nestW 17)).errKind? = some .decodeFailed := by decide +kernel
+example : (fromSlice CoseSign.fromValue [0x84, 0x40, 0xa0, 0xf6, 0x82, 0x83, 0x40, 0xa0, 0x40, 0x83, 0x43, 0xa1, 0x01, 0x26, 0xa0, 0x41, 0x01]).isOk = true := by
+  decide +kernel
+
+#print axioms decode_no_panic
+#print axioms decode_tagged_no_panic
+#print axioms protected_bstr_no_panic
+#print axioms parser_no_panic
+#print axioms encode_no_panic
+#print axioms decoded_protected_serialises
+#print axioms sign1_followup_no_panic
+#print axioms mac0_followup_no_panic
+#print axioms encrypt0_followup_no_panic
+#print axioms sign_followup_no_panic
+#print axioms depth_bounded
+#print axioms budget
+#print axioms budget_exhausted
 
 end Coset.Props.C01
